@@ -8,6 +8,7 @@ type tagIncludeNode struct {
 	only              bool
 	filename          string
 	withPairs         map[string]IEvaluator
+	withOrder         []string // the names in the order they are written
 	ifExists          bool
 }
 
@@ -22,7 +23,9 @@ func (node *tagIncludeNode) Execute(ctx *ExecutionContext, writer TemplateWriter
 	}
 
 	// Put all custom with-pairs into the context
-	for key, value := range node.withPairs {
+	// (in written order, not in the iteration order of the map)
+	for _, key := range node.withOrder {
+		value := node.withPairs[key]
 		val, err := value.Evaluate(ctx)
 		if err != nil {
 			return err
@@ -140,6 +143,9 @@ func tagIncludeParser(doc *Parser, start *Token, arguments *Parser) (INodeTag, *
 				return nil, err.updateFromTokenIfNeeded(doc.template, keyToken)
 			}
 
+			if _, has := includeNode.withPairs[keyToken.Val]; !has {
+				includeNode.withOrder = append(includeNode.withOrder, keyToken.Val)
+			}
 			includeNode.withPairs[keyToken.Val] = valueExpr
 
 			// Only?
